@@ -212,3 +212,7 @@ func (v *VEmu) WaitForTermination() { v.E.WaitForTermination() }
 // VHash exposes the dictionary's hash function so that checks can pick element names that
 // collide in the low bits (forcing the bucket table to double, and allowing it to halve).
 func VHash(s string) uint64 { return calcSipHash(s) }
+
+// VDeepTableSize is set by the optional deep-introspection file (tag verifdeep): size of the
+// bucket table of a hash/set key, or of the keyspace when key is "".
+var VDeepTableSize func(vi *VInst, db int, key string) int
